@@ -602,6 +602,9 @@ class ArrayCollection:
         shape = tuple(shape)
         axes = self.get_named_axes(ignore=ignore)
 
+        if len(shape) < len(layout) - 1:
+            raise ValueError(f"Array has fewer axes than its layout: {shape}, {layout}")
+
         # check named axes
         idx = 0
         for i, ax in enumerate(layout):
